@@ -142,17 +142,22 @@ func zzLegacySequence(h Handler, pl *zzPlayer, ev *zzEvents, forced117 bool, ste
 	m := &zzLegacyModel{forced117: forced117, hasBackend: pl.backend != nil}
 	n := 0
 	for s := 0; s < steps; s++ {
-		if zz.Bool() {
+		switch zz.Choose(3) {
+		case 0:
 			i := zzInfo(n)
 			n++
 			err := h.QueueResourcePack(i)
 			zz.Assert(err == nil, "queueing a resource pack failed")
 			m.enqueue(i)
-		} else {
+		case 1:
 			st := zzStatus()
 			_, err := h.OnResourcePackResponse(&ResponseBundle{Status: st})
 			zz.Assert(err == nil, "handling a resource pack response failed")
 			m.response(st)
+		case 2:
+			// forgetting the applied pack (sent on a 1.20.2 server switch) touches neither the queue nor
+			// the prompt that is still open
+			h.ClearAppliedResourcePacks()
 		}
 		// what the client was prompted with, in order
 		zz.Assert(len(pl.client.packets) == len(m.prompts), "the number of resource pack prompts sent to the client differs from the rules (one outstanding prompt at a time, auto-decline only after a client decline, forced packs on 1.17+ always prompted)")
